@@ -46,8 +46,11 @@ RefDiff == { [t |-> "name", n |-> NameQN("ex", A, Y)],
              [t |-> "name", n |-> [rep |-> "rec", r |-> [c |-> "doc", i |-> 2]]] }
 (* (a time given as a typed literal is not among the representations C05 claims; the readers' use of *)
 (* it is exercised by C11, flag timetype)                                                          *)
-TimeSame == { [t |-> "dt", v |-> "t1"], [t |-> "iso", v |-> "t1"] }
-TimeDiff == { [t |-> "dt", v |-> "t2"], [t |-> "iso", v |-> "t2"] }
+(* ... but whatever arrives, a time-valued formal holds a datetime afterwards: literals that convert to *)
+(* a datetime or to its ISO text are driven as well                                                    *)
+TimeSame == { [t |-> "dt", v |-> "t1"], [t |-> "iso", v |-> "t1"], [t |-> "nlit", T |-> "dateTime", v |-> "t1"],
+              [t |-> "isolit", v |-> "t1", typed |-> TRUE] }
+TimeDiff == { [t |-> "dt", v |-> "t2"], [t |-> "iso", v |-> "t2"], [t |-> "isolit", v |-> "t2", typed |-> FALSE] }
 Same(f) == IF f \in TimeAttrs THEN TimeSame ELSE RefSame
 Diff(f) == IF f \in TimeAttrs THEN TimeDiff ELSE RefDiff
 
@@ -73,8 +76,8 @@ NewActs(k) ==
   \cup
   { [op |-> "NewRec", h |-> "doc", k |-> k, via |-> via, id |-> <<NamePL("ex", <<"r">>)>>,
      formals |-> [i \in 1..Len(Formals[k]) |-> <<Formals[k][i], SchemeVal(Formals[k][i], "qn")>>],
-     extras |-> << <<NamePL("prov", <<fv[1]>>), fv[2]>> >>]
-    : via \in {"new_record", "factory"},
+     extras |-> << <<IF kq THEN NameQN("prov", ProvNS, <<fv[1]>>) ELSE NamePL("prov", <<fv[1]>>), fv[2]>> >>]
+    : via \in {"new_record", "factory"}, kq \in BOOLEAN,
       fv \in {x \in FormalDiff1(k) : ~(k = "membership" /\ x[1] = "entity")} }   \* (the unclaimed path)
 
 (* the typed convenience factories, with other_attributes as a pair list that repeats a name *)
@@ -125,7 +128,8 @@ FollowActs(k) ==
   \cup
   (IF k = "activity"
    THEN { [op |-> "SetTime", r |-> Target, start |-> s, end |-> e]
-            : s \in {<<>>} \cup {<<v>> : v \in TimeSame \cup TimeDiff},
+            \* (set_time is documented for datetimes and ISO strings; literals are not driven through it)
+            : s \in {<<>>} \cup {<<v>> : v \in {w \in TimeSame \cup TimeDiff : w.t \in {"dt", "iso"}}},
               e \in {<<>>, <<[t |-> "dt", v |-> "t2"]>>} } \ {[op |-> "SetTime", r |-> Target, start |-> <<>>, end |-> <<>>]}
    ELSE {})
   \cup
